@@ -92,6 +92,28 @@ func DbpPrograms() []Prog {
 	}
 }
 
+// TiePrograms are built so that every comparison key a sort of definitions could use ties somewhere:
+// same-named classes in two or three namespaces (and at top level) holding same-named methods with
+// identical signatures, instance and class methods of one name, distinct ti-doc comments, and call
+// points for all of them. Used by C05: any order left to map iteration shows up as a difference.
+func TiePrograms() []Prog {
+	klass := func(mod, cls, doc, body string) string {
+		s := "class " + cls + "\n  # ti-doc: " + doc + "\n  def title\n    " + body + "\n  end\n\n  # ti-doc: " + doc + " (class side)\n  def self.title\n    " + body + "\n  end\n\n  def other(v)\n    v\n  end\nend\n"
+		if mod == "" {
+			return s
+		}
+		return "module " + mod + "\n" + indent(s[:len(s)-1], 1) + "\nend\n"
+	}
+	two := klass("Admin", "Report", "title shown in the back office", "\"admin\"") + klass("Api", "Report", "title sent to clients", "\"api\"") +
+		"ra = Admin::Report.new\nrb = Api::Report.new\nra.title\nrb.title\nAdmin::Report.title\nApi::Report.title\nra.other(1)\nrb.other(1)\n"
+	three := klass("Admin", "Report", "back office", "\"admin\"") + klass("Api", "Report", "clients", "\"api\"") + klass("", "Report", "plain", "\"top\"") +
+		"ra = Admin::Report.new\nrb = Api::Report.new\nrc = Report.new\nra.title\nrb.title\nrc.title\nReport.title\nrc.other(\"s\")\n"
+	nested := "module Outer\n" + indent(klass("Inner", "Report", "inner", "1"), 1) + "\n" + indent(klass("", "Report", "outer", "1"), 1) + "\nend\n" +
+		"x1 = Outer::Inner::Report.new\nx2 = Outer::Report.new\nx1.title\nx2.title\n"
+	samesig := "class Alpha\n  def run(a)\n    a\n  end\nend\nclass Beta\n  def run(a)\n    a\n  end\nend\nmodule Gamma\n  def self.run(a)\n    a\n  end\nend\ndef run(a)\n  a\nend\nAlpha.new.run(1)\nBeta.new.run(1)\nGamma.run(1)\nrun(1)\n"
+	return []Prog{{Name: "./g_tie_0.rb", Src: two}, {Name: "./g_tie_1.rb", Src: three}, {Name: "./g_tie_2.rb", Src: nested}, {Name: "./g_tie_3.rb", Src: samesig}}
+}
+
 func indent(s string, n int) string {
 	pad := ""
 	for i := 0; i < n; i++ {
